@@ -756,7 +756,43 @@ func c05Crafted(r *kit.Rand) ([]byte, string) {
 	levels := kit.Pick(r, []int{8, 20, 40, 64, 200})
 	fan := kit.Pick(r, []int{2, 2, 3, 16})
 	what := ""
-	switch k := r.Intn(14); k {
+	switch k := r.Intn(15); k {
+	case 14: // a composite font whose /W and /W2 arrays are long lists of ranges, reversed and maximal ones among them
+		reps := kit.Pick(r, []int{50, 2000, 20000})
+		what = fmt.Sprintf("cid-font-width-ranges(reps=%d)", reps)
+		var w2, w1 kit.XArray
+		for i := 0; i < reps; i++ {
+			for _, rg := range [][2]int64{{65535, 0}, {65535, 0}, {0, 65535}} {
+				if r.Chance(1, 50) {
+					rg = [2]int64{int64(r.Intn(65536)), int64(r.Intn(65536))}
+				}
+				w2 = append(w2, rg[0], rg[1], int64(-900), int64(500), int64(880))
+				w1 = append(w1, rg[0], rg[1], int64(600))
+			}
+		}
+		if r.Bool() {
+			w1 = kit.XArray{int64(0), int64(100), int64(600)} // (a reversed range in /W is refused at once)
+		} else {
+			w2 = kit.XArray{int64(0), int64(100), int64(-900), int64(500), int64(880)}
+		}
+		desc := alloc()
+		rev.Actions[desc] = kit.XAction{Value: kit.XDict{"Type": kit.XName("FontDescriptor"), "FontName": kit.XName("Verif"), "Flags": int64(4),
+			"FontBBox": kit.XArray{int64(0), int64(-200), int64(1000), int64(900)}, "ItalicAngle": int64(0), "Ascent": int64(800), "Descent": int64(-200), "CapHeight": int64(700), "StemV": int64(80)}}
+		cidf := alloc()
+		rev.Actions[cidf] = kit.XAction{Value: kit.XDict{"Type": kit.XName("Font"), "Subtype": kit.XName(kit.Pick(r, []string{"CIDFontType2", "CIDFontType0"})), "BaseFont": kit.XName("Verif"),
+			"CIDSystemInfo":  kit.XDict{"Registry": kit.XString("Adobe"), "Ordering": kit.XString("Identity"), "Supplement": int64(0)},
+			"FontDescriptor": kit.XRef{Num: desc}, "DW": int64(1000), "W": w1, "DW2": kit.XArray{int64(880), int64(-1000)}, "W2": w2}}
+		font := alloc()
+		rev.Actions[font] = kit.XAction{Value: kit.XDict{"Type": kit.XName("Font"), "Subtype": kit.XName("Type0"), "BaseFont": kit.XName("Verif"),
+			"Encoding": kit.XName(kit.Pick(r, []string{"Identity-H", "Identity-V"})), "DescendantFonts": kit.XArray{kit.XRef{Num: cidf}}}}
+		content := alloc()
+		rev.Actions[content] = kit.XAction{Value: &kit.XStream{Dict: kit.XDict{}, Raw: []byte("BT /F1 12 Tf 10 10 Td <00410042> Tj ET")}}
+		pg := alloc()
+		rev.Actions[pg] = kit.XAction{Value: kit.XDict{"Type": kit.XName("Page"), "Parent": kit.XRef{Num: 2},
+			"MediaBox": kit.XArray{int64(0), int64(0), int64(200), int64(200)}, "Contents": kit.XRef{Num: content},
+			"Resources": kit.XDict{"Font": kit.XDict{"F1": kit.XRef{Num: font}}}}}
+		pagesRoot["Kids"] = kit.XArray{kit.XRef{Num: pg}}
+		pagesRoot["Count"] = int64(1)
 	case 13: // thousands of streams whose /Length is the head of a long chain of reference-valued objects
 		n := kit.Pick(r, []int{50, 1000, 5000, 8000})
 		m := kit.Pick(r, []int{50, 1000, 5000, 8000})
